@@ -89,6 +89,40 @@ func c02(c *core.Check) {
 			sub := newAggregate()
 			c06defaults(sub, r)
 			relay(sub, agg, "read-storage-defaults-agree", k, []string{"default-siblings"})
+			// Write calls CountSetFields<T>() on a union before its own `if p != nil` guard, so the count has to work for a nil
+			// receiver: a nil union in a default or required field must be refused ("exactly one member"), not crash
+			for _, d := range r.P.File.Decls {
+				cf, ok := d.(*ast.FuncDecl)
+				if !ok || r.U.Set != "default" || cf.Recv == nil || !strings.HasPrefix(cf.Name.Name, "CountSetFields") || len(cf.Recv.List[0].Names) == 0 {
+					continue
+				}
+				agg.check("union-count-nil-safe", k)
+				recv := cf.Recv.List[0].Names[0].Name
+				guarded := false
+				usesRecv := false
+				for _, st := range cf.Body.List {
+					if is, ok := st.(*ast.IfStmt); ok && !usesRecv && strings.ReplaceAll(rules.ExprText(is.Cond), " ", "") == recv+"==nil" {
+						if len(is.Body.List) > 0 {
+							if _, isRet := is.Body.List[len(is.Body.List)-1].(*ast.ReturnStmt); isRet {
+								guarded = true
+							}
+						}
+						continue
+					}
+					ast.Inspect(st, func(m ast.Node) bool {
+						if id, ok := m.(*ast.Ident); ok && id.Name == recv {
+							usesRecv = true
+						}
+						return true
+					})
+					if usesRecv {
+						break
+					}
+				}
+				if usesRecv && !guarded {
+					agg.fail("union-count-nil-safe", k, "under ["+r.R.Valuation+"]: "+cf.Name.Name+" dereferences its receiver without a nil guard, and the union's Write calls it before testing `p != nil`: writing a struct whose union-typed field is nil (what New<T>() leaves there) panics instead of returning 'exactly one field must be set'")
+				}
+			}
 		}
 	})
 	agg.flush(c, map[string]string{
@@ -103,6 +137,7 @@ func c02(c *core.Check) {
 		"read-struct-initialised":          "struct elements read into zero storage get InitDefault() before Read",
 		"read-storage-defaults-agree":      "InitDefault() (container elements) and NewX() (everything else) prepare the same declared defaults",
 		"read-present-container-allocated": "a container present on the wire is allocated whatever its size",
+		"union-count-nil-safe":             "CountSetFields works on a nil receiver (Write calls it before its nil guard)",
 	})
 	for _, k := range []string{"read-typestate", "read-guard", "write-typestate", "writefield-frame", "readfield-value", "read-struct-initialised", "read-storage-defaults-agree"} {
 		c.Min(k, 1)
